@@ -261,4 +261,29 @@ def oracle_c16(g, scfg, originals, stage):
     for rname, r in flat.regions.items():
         follows = M.check_view(r.subregion, rname) or follows
         n += 1
-    return follows, dict(views=n)
+    kept_n = 0
+    if stage in ("closed", "loop"):
+        # a view object that is kept while the graph changes (the next stage runs) enumerates the graph as it then is
+        kept = [("top", scfg, scfg.concealed_region_view)] + [(rn, r.subregion, r.subregion.concealed_region_view) for rn, r in flat.regions.items()]
+        for _, _, v in kept:
+            list(v)
+        try:
+            if stage == "closed":
+                scfg.restructure_loop()
+            else:
+                scfg.restructure_branch()
+        except Exception as e:
+            if not library_raised(e):
+                raise
+            kept = []
+        for label, sub, v in kept:
+            try:
+                old, new = list(v), list(sub.concealed_region_view)
+            except Exception as e:
+                if not library_raised(e):
+                    raise
+                raise M.Viol("I-view-kept", f"level {label}: a view object kept across the next stage raised {type(e).__name__}: {e}")
+            if old != new or len(v) != len(new):
+                raise M.Viol("I-view-kept", f"level {label}: a view object kept across the next stage enumerates {old[:6]}..., a fresh view of the same graph {new[:6]}...")
+            kept_n += 1
+    return follows, dict(views=n, kept_views=kept_n)
